@@ -12,7 +12,7 @@ import_auditok()
 from auditok.core import StreamTokenizer  # noqa: E402
 from auditok.util import DataSource, DataValidator, StringDataSource  # noqa: E402
 
-KINDS = ("obj", "char", "bytes")
+KINDS = ("obj", "char", "bytes", "int")
 DELIVS = ("list", "gen", "cb")
 
 
@@ -62,6 +62,10 @@ def obj_valid(frame):
     return frame.bit
 
 
+def int_valid(frame):
+    return frame == 1
+
+
 def np_valid(frame):
     """a validator whose verdict is a numpy bool, like AudioEnergyValidator's"""
     import numpy as np
@@ -80,6 +84,10 @@ def make_stream(pat, kind):
     if kind == "bytes":
         frames = [bytes([1 if c == "1" else 0, i & 255]) for i, c in enumerate(pat)]
         return frames, ByteValidator(), ListSource(frames)
+    if kind == "int":
+        # frames that are falsy objects (0) must still be frames, not "end of stream"
+        frames = [1 if c == "1" else 0 for c in pat]
+        return frames, int_valid, ListSource(frames)
     raise HarnessError(f"unknown frame kind {kind}")
 
 
@@ -88,6 +96,8 @@ def frame_valid(frame, kind):
         return frame.bit
     if kind == "char":
         return frame.isupper()
+    if kind == "int":
+        return frame == 1
     return frame[0] == 1
 
 
